@@ -1,3 +1,6 @@
--- This module serves as the root of the `Rv` library.
--- Import modules here that should be built as part of the library.
 import Rv.Basic
+import Rv.Model.Range
+import Rv.Spec.Range
+import Rv.Lemmas.Range
+import Rv.Props.C07
+import Rv.Oracle
